@@ -141,6 +141,28 @@ def _fail(msg):
 
 
 REJECTED = "rejected-input"
+_POISON = [0]
+try:
+    import ctypes
+    _LIBC = ctypes.CDLL("libc.so.6")
+except Exception:  # noqa: BLE001
+    _LIBC = None
+
+
+def _poison():
+    """Leave recognisable, call-specific numbers in the small-block caches of numpy's allocator and let glibc fill fresh and
+    freed blocks with a call-specific byte (mallopt M_PERTURB): a result read from uninitialised memory (np.empty filled through a mask) then tends to differ between a call and its repeat instead of
+    accidentally reproducing.  Changes nothing for code that initialises what it returns."""
+    _POISON[0] += 1
+    if _LIBC is not None:
+        try:
+            _LIBC.mallopt(-6, 1 + _POISON[0] % 254)  # M_PERTURB: fresh / freed malloc blocks are filled with a call-specific byte
+        except Exception:  # noqa: BLE001 - not glibc
+            pass
+    for size in (1, 2, 3, 4, 6, 8, 12, 16, 24, 32, 48, 64):
+        a = np.full(size, 1.0e300 + 1.0e290 * _POISON[0])
+        del a
+
 
 
 def run_entry(w, name, p, out, objs, tag, note=None):
@@ -154,6 +176,7 @@ def run_entry(w, name, p, out, objs, tag, note=None):
     calldir = tempfile.mkdtemp(prefix="call-", dir=w.root)
     old = os.getcwd()
     os.chdir(calldir)
+    _poison()
     try:
         # 0/0 -> NaN in degenerate bins etc. is a value (compared as such), not an event: silence the warnings
         with warnings.catch_warnings(), np.errstate(all="ignore"):
